@@ -9,7 +9,8 @@ and time stamps of the global state.
 `timeSlice` is `BasicEventHandler._time_slice_unit`:
     position[d] = correct_position_entry(position[d] + velocity[d] * (event_time - time_stamp), d)
     time_stamp.update(event_time)
-with `correct_position_entry(x, d) = x % L_d` (`setting/hypercubic_setting.py`, `hypercuboid_setting.py`).
+with `correct_position_entry(x, d) = (r := x % L_d; r if r != L_d else 0.0)` = `JF.pywrap` (`setting/hypercubic_setting.py`,
+`hypercuboid_setting.py`).
 -/
 namespace JF
 
@@ -22,7 +23,7 @@ namespace Kin
 variable {α : Type} [Add α] [Sub α] [Mul α] [Div α] [Neg α] [LT α] [DecidableLT α] [BEq α]
 
 /-- one coordinate of `_time_slice_unit` -/
-def sliceCoord (o : Ops α) (L p v dt : α) : α := pymod o (p + v * dt) L
+def sliceCoord (o : Ops α) (L p v dt : α) : α := pywrap o (p + v * dt) L
 
 /-- all coordinates (lists are zipped; the dimension is the common length) -/
 def sliceVec (o : Ops α) : List α → List α → List α → α → List α
